@@ -35,7 +35,7 @@ def c02(ctx):
     _g(ctx, shape.run, builders=True, cross=False, ids=False)
     _g(ctx, sides.run)
     _g(ctx, wire.run, ordering=False, same=False, measure=True)
-    _g(ctx, cand.run, slices=False, provenance=False, window=False, prune=False, consume=False, early=False)
+    _g(ctx, cand.run, slices=False, provenance=False, window=False, prune=False, consume=False, early=False, collect=True)
     _g(ctx, once.run, which=['row_id'], caches=True)
     _g(ctx, split.run)
 
@@ -63,6 +63,11 @@ def c04(ctx):
     _g(ctx, suffix.run)
     _g(ctx, split.run)
     _g(ctx, effect.run, mutations=False, globals_=True, labels=False)
+    # "filter_tables lists it": the surviving pair must be emitted under its own keys, from the strings of its own rows
+    _g(ctx, wire.run, ordering=True, same=True, rows=True, arrays=True, measure=False)
+    _g(ctx, sides.run, only=tuple('py_stringsimjoin/filter/%s.py' % m for m in
+                                  ('size_filter', 'prefix_filter', 'position_filter', 'suffix_filter', 'overlap_filter', 'filter')))
+    _g(ctx, shape.run, builders=True, cross=False, ids=False)
 
 
 def c05(ctx):
